@@ -475,6 +475,14 @@ func TestInterleavedSessions(t *testing.T) {
 // ---------------------------------------------------------------------------
 // layer 2: real goroutines
 
+// concurrentFailure is the message of the first layer-2 failure of this process.
+var concurrentFailure string
+
+func failConcurrent(t *rapid.T, format string, args ...interface{}) {
+	concurrentFailure = fmt.Sprintf(format, args...)
+	t.Fatalf("%s", concurrentFailure)
+}
+
 func rapidSeed() string {
 	if f := flag.Lookup("rapid.seed"); f != nil {
 		return f.Value.String()
@@ -514,14 +522,19 @@ func TestConcurrentSessions(t *testing.T) {
 			return b.String()
 		}
 
+		if concurrentFailure != "" {
+			// a failure of this layer is not shrinkable: the sessions are not run
+			// again for rapid's shrink attempts (which would only multiply race reports)
+			t.Fatalf("(first failure of this run, not re-executed while shrinking) %s", concurrentFailure)
+		}
 		solo := make([][]string, n)
 		for i := range use {
 			id := base + 1 + i
 			if msg := guard(func() { solo[i] = runSolo(id, &tps[use[i]]) }); msg != "" {
-				t.Fatalf("session %d (%s) run alone panics: %s", id, describeTemplate(tps[use[i]]), msg)
+				failConcurrent(t, "session %d (%s) run alone panics: %s", id, describeTemplate(tps[use[i]]), msg)
 			}
 			if b := broken(solo[i]); b != "" {
-				t.Fatalf("session %d (%s) run alone does not get what its peer sent: %s", id, describeTemplate(tps[use[i]]), b)
+				failConcurrent(t, "session %d (%s) run alone does not get what its peer sent: %s", id, describeTemplate(tps[use[i]]), b)
 			}
 		}
 
@@ -587,10 +600,10 @@ func TestConcurrentSessions(t *testing.T) {
 				more = fmt.Sprintf("\n  … and %d more sessions", len(bad)-3)
 				bad = bad[:3]
 			}
-			t.Fatalf("%d concurrent sessions, interference:\n  %s%s\n%s", n, strings.Join(bad, "\n  "), more, describe())
+			failConcurrent(t, "%d concurrent sessions, interference:\n  %s%s\n%s", n, strings.Join(bad, "\n  "), more, describe())
 		}
 		if m := checkShared(); m != "" {
-			t.Fatalf("after %d concurrent sessions: %s\n%s", n, m, describe())
+			failConcurrent(t, "after %d concurrent sessions: %s\n%s", n, m, describe())
 		}
 		if overlapped >= 2 {
 			var shape []string
